@@ -281,7 +281,7 @@ func genHostileScratch(t *rapid.T, depth int) *mnode {
 
 // ---------------------------------------------------------------- mutations of valid DAGs
 
-var mutationKinds = []string{"fanout", "bitfield", "linkname", "dup-link", "drop-tsize", "type", "filesize", "blocksizes", "replace-child", "hashtype", "missing-child", "drop-data", "tsize-huge"}
+var mutationKinds = []string{"fanout", "bitfield", "linkname", "dup-link", "drop-tsize", "type", "filesize", "blocksizes", "replace-child", "hashtype", "missing-child", "drop-data", "tsize-huge", "huge-consistent-sizes"}
 
 // mutate applies one drawn mutation to node m; returns the mutation label ("" if not applicable).
 func mutate(t *rapid.T, m *mnode) string {
@@ -369,6 +369,24 @@ func mutate(t *rapid.T, m *mnode) string {
 			return ""
 		}
 		m.UFS.Type = rapid.SampledFrom([]uint64{0, 1, 2, 3, 4, 5, 6, 99}).Draw(t, "ntype")
+	case "huge-consistent-sizes":
+		// FileSize and BlockSizes that agree with each other (one entry per link, FileSize = their sum) but are enormous:
+		// a reader that trusts numbers once they are self-consistent must still not allocate by them
+		if m.UFS == nil || len(m.Links) == 0 {
+			return ""
+		}
+		total := rapid.SampledFrom([]uint64{1 << 40, 1 << 62, 1<<63 - 1, 1<<63 - 300, 1 << 31, 1<<32 + 5}).Draw(t, "hugeTotal")
+		m.UFS.BlockSizes = make([]uint64, len(m.Links))
+		rest := total
+		for i := range m.UFS.BlockSizes {
+			if i == len(m.UFS.BlockSizes)-1 {
+				m.UFS.BlockSizes[i] = rest
+			} else {
+				m.UFS.BlockSizes[i] = uint64(i + 1)
+				rest -= uint64(i + 1)
+			}
+		}
+		m.UFS.FileSize = u64p(total)
 	case "filesize":
 		if m.UFS == nil {
 			return ""
